@@ -120,6 +120,12 @@ pub fn generate(scope: &str, name: &str, seed: u64, k: u64, rng: &mut Rng, tier:
                 inst.c_service = rng.range(0, 2);
                 inst.c_dh = rng.range(5, 20);
                 inst.c_idle = rng.range(0, 3);
+                // superfluous maintenance visits that cost more than standing idle: the search first
+                // takes a slot out of a tour and may then hitch-hike with the same vehicle
+                if rng.chance(30) {
+                    inst.c_maint = *rng.pick(&[30u64, 100]);
+                    inst.max_dist = 30_000_000;
+                }
             }
             match load_or_report(inst) {
                 Err(s) => head + &s,
